@@ -2,11 +2,7 @@
 
 GROUP_UNITS = ["SO2", "SO3", "SE2", "SE3", "C1", "Galilei", "SEK3_1", "SEK3_2", "SEK3_3"]
 
-TB_COMMON = [
-    "Coq 8.16.1 kernel incl. its vm_compute machine; no native_compute; full .vo build (no -vos)",
-    "Engine A translator: tracer/sym.hpp + emit.hpp (operator overloads, exact constant folding of integer +,-,*, sign normalisation of products, relation store, path enumeration, Coq emitter) and g++ instantiating the same template source for the symbolic scalar as for float/double - validated every run by replaying each DAG in binary64 against the real instantiation",
-    "Doc/Groups.v: documented matrix / algebra forms transcribed by hand from the header comments",
-]
+from tb import TB_COMMON
 
 PROPS = {
     "C01": dict(
